@@ -25,6 +25,7 @@ static int myth_init_ex_body_really(const myth_globalattr_t * attr) {
     if (!g_attr.initialized) myth_globalattr_init_body(&g_attr);
   }
   nw = g_attr.n_workers;
+  MYTH_VERIF_POINT(MYTH_VP_INIT_REALLY, &g_myth_init_state, attr, nw);
   //Initialize logger
   myth_log_init();
   //Initialize memory allocators
@@ -69,6 +70,7 @@ int myth_init_once_ctl_try_set(volatile int * var, int old, int new) {
 
 void myth_init_once_ctl_wait(volatile int * var, int val) {
   while (*var != val) {
+    MYTH_VERIF_SPIN(MYTH_VP_INIT_WAIT, var);
     real_sched_yield();
   }
 }
@@ -78,17 +80,24 @@ volatile int g_myth_init_state = myth_init_state_uninit;
 //Initialize
 int myth_init_ex_body(const myth_globalattr_t * attr) {
   if (g_myth_init_state == myth_init_state_initialized) {
+    MYTH_VERIF_POINT(MYTH_VP_INIT_FAST, &g_myth_init_state, attr, 0);
     return 1;			/* OK */
   }
+  MYTH_VERIF_POINT(MYTH_VP_INIT_SLOW, &g_myth_init_state, attr, 0);
   if (!myth_init_once_ctl_try_set(&g_myth_init_state,
 				  myth_init_state_uninit,
 				  myth_init_state_initializing)) {
+    MYTH_VERIF_POINT(MYTH_VP_INIT_CAS, &g_myth_init_state, attr, 0);
     myth_init_once_ctl_wait(&g_myth_init_state, myth_init_state_initialized);
+    MYTH_VERIF_POINT(MYTH_VP_INIT_WAITED, &g_myth_init_state, attr, 0);
     return 1;			/* OK */
   }
+  MYTH_VERIF_POINT(MYTH_VP_INIT_CAS, &g_myth_init_state, attr, 1);
   assert(g_myth_init_state == myth_init_state_initializing);
   myth_init_ex_body_really(attr);
+  MYTH_VERIF_POINT(MYTH_VP_INIT_STARTED, &g_myth_init_state, attr, g_attr.n_workers);
   g_myth_init_state = myth_init_state_initialized;
+  MYTH_VERIF_POINT(MYTH_VP_INIT_DONE, &g_myth_init_state, attr, 0);
   return 1;			/* OK */
 }
 
@@ -378,9 +387,12 @@ static void myth_fini_body_really(void) {
 
 int myth_fini_body() {
   if (g_myth_init_state == myth_init_state_uninit) {
+    MYTH_VERIF_POINT(MYTH_VP_FINI_NOOP, &g_myth_init_state, 0, 0);
     return 1;			/* OK */
   }
+  MYTH_VERIF_POINT(MYTH_VP_FINI_BEGIN, &g_myth_init_state, 0, 0);
   myth_init_once_ctl_wait(&g_myth_init_state, myth_init_state_initialized);
+  MYTH_VERIF_POINT(MYTH_VP_FINI_WAITED, &g_myth_init_state, 0, myth_get_current_env()->rank);
   //add context switch as a sentinel for emitting logs
   int i;
   for (i = 0; i < g_attr.n_workers; i++){
@@ -394,8 +406,10 @@ int myth_fini_body() {
   for (i = 1; i < g_attr.n_workers; i++) {
     real_pthread_join(g_envs[i].worker, NULL);
   }
+  MYTH_VERIF_POINT(MYTH_VP_FINI_STOPPED, &g_myth_init_state, 0, rank);
   myth_fini_body_really();
   g_myth_init_state = myth_init_state_uninit;
+  MYTH_VERIF_POINT(MYTH_VP_FINI_DONE, &g_myth_init_state, 0, 0);
   return 0;
 }
 
